@@ -153,6 +153,15 @@ class Features(Suite):
                 # radii strictly between node distances, and radii that coincide EXACTLY with node distances (perfect squares, exact in
                 # float32 and float64): the count "at any radius" includes the boundary convention (one end ≤ r, the other > r)
                 rs2 = sorted({rng.randint(0, 40) + 0.5 for _ in range(5)} | {1.0, 4.0, 9.0, 16.0, 25.0})
+                # "at any radius": the caller's radii in any order (descending, outside-in, shuffled), some beyond the tree's extent
+                rs2 = rs2 + [400.5, 900.0, 2500.5]
+                order = k % 4
+                if order == 1:
+                    rs2.reverse()
+                elif order == 2:
+                    rs2 = [v for pair in zip(rs2[::-1], rs2) for v in pair][:len(rs2)]
+                elif order == 3:
+                    rng.shuffle(rs2)
                 case = {"class": shape, "tree": t, "sholl_r2": rs2, "population": rng.random() < (0.3 if not big else 0.5)}
                 # a third of the trees are DERIVED from a tree that was measured before (copy + node edits, or a library transform):
                 # what is reported must be the derived tree's own morphometrics
@@ -407,7 +416,77 @@ class Angles(Suite):
         return True
 
 
-SUITES = [Features(), Angles()]
+class Closed(Suite):
+    """branches and paths that come back to where they started (the property's "coincident points"): straight-line distance 0,
+    positive length — tortuosity (straight / path) is 0 there; and zero-length branches, where it is 1 by the library's convention"""
+    name = "c10.closed"
+
+    def cases(self, rng, tier, widen):
+        out = []
+        for rep in range(4 if tier == "quick" and not widen else 16):
+            o = [rng.randint(-5, 5) for _ in range(3)]
+            a = rng.randint(1, 4); b = rng.randint(1, 4)
+            P = lambda dx, dy, dz=0: [float(o[0] + dx), float(o[1] + dy), float(o[2] + dz)]
+            # root → (a,0) → (a,b) → back to the root position (a closed path and branch); a second, open neurite
+            xyz = [P(0, 0), P(a, 0), P(a, b), P(0, 0), P(0, -3), P(2, -3)]
+            pids = [-1, 0, 1, 2, 0, 4]
+            want_path = sorted([0.0, math.hypot(2, 3) / 5.0])
+            L = a + b + math.hypot(a, b)
+            out.append({"class": "closed-at-root", "tree": {"n": 6, "pids": pids, "types": [1, 3, 3, 3, 3, 3], "xyz": xyz, "r": [1.0] * 6},
+                        "branch_tort": sorted([0.0, math.hypot(2, 3) / 5.0]), "path_tort": want_path, "length": L + 5.0})
+            # a branch between two furcation-like ends that coincide: root → f; f → … → back to f's position → tip1 / tip2
+            xyz = [P(0, 0), P(0, 2), P(a, 2), P(a, 2 + b), P(0, 2), P(-1, 2), P(0, 3, 1)]
+            pids = [-1, 0, 1, 2, 3, 4, 4]
+            out.append({"class": "closed-between-furcations", "tree": {"n": 7, "pids": pids, "types": [1] + [3] * 6, "xyz": xyz, "r": [1.0] * 7},
+                        "branch_tort": None, "path_tort": None, "length": 2 + a + b + math.hypot(a, b) + 1 + math.sqrt(2)})
+        return out
+
+    def run(self, case):
+        from swcgeom.analysis import extract_feature
+        from swcgeom.analysis.features import BranchFeatures, PathFeatures
+
+        t = gen.make_tree(case["tree"])
+        with warnings.catch_warnings():
+            warnings.simplefilter("ignore")
+            brs = t.get_branches()
+            res = {"branches": [[int(v) for v in b.get_ndata("id")] for b in brs],
+                   "branch_tort": [float(b.tortuosity()) for b in brs], "branch_len": [float(b.length()) for b in brs],
+                   "branch_straight": [float(b.straight_line_distance()) for b in brs],
+                   "paths": [[int(v) for v in p.get_ndata("id")] for p in t.get_paths()],
+                   "path_tort": [float(p.tortuosity()) for p in t.get_paths()], "path_len": [float(p.length()) for p in t.get_paths()],
+                   "path_straight": [float(p.straight_line_distance()) for p in t.get_paths()],
+                   "bf_tort": sorted(float(v) for v in BranchFeatures(t).get_tortuosity()), "pf_tort": sorted(float(v) for v in PathFeatures(t).get_tortuosity()),
+                   "fe_branch_tort": sorted(float(v) for v in np.atleast_1d(extract_feature(t).get("branch_tortuosity"))),
+                   "length": float(t.length())}
+        return res
+
+    def oracle(self, case, res):
+        if "exc" in res:
+            return [("features-raise", f"{res['exc']}: {res.get('msg')}")]
+        out = []
+        close = lambda a, b: abs(a - b) <= 2e-5 * max(1.0, abs(b))
+        P = np.array(case["tree"]["xyz"], dtype=np.float64)
+        for kind in ("branch", "path"):
+            for ids, tv, ln, st in zip(res[kind + "es" if kind == "branch" else "paths"], res[kind + "_tort"], res[kind + "_len"], res[kind + "_straight"]):
+                L = float(sum(np.linalg.norm(P[b] - P[a]) for a, b in zip(ids, ids[1:])))
+                S = float(np.linalg.norm(P[ids[-1]] - P[ids[0]]))
+                want = 1.0 if L == 0 else S / L
+                if not (close(ln, L) and close(st, S) and close(tv, want)):
+                    out.append((f"{kind}-tortuosity", f"{kind} {ids}: length {ln} (definition {L}), straight-line {st} ({S}), tortuosity {tv}; straight / path = {want}"))
+        for key in ("bf_tort", "fe_branch_tort"):
+            if not (len(res[key]) == len(res["branch_tort"]) and all(close(a, b) for a, b in zip(res[key], sorted(res["branch_tort"])))):
+                out.append(("branch-tortuosity", f"{key} {res[key]} differs from the branches' own tortuosity {sorted(res['branch_tort'])}"))
+        if not (len(res["pf_tort"]) == len(res["path_tort"]) and all(close(a, b) for a, b in zip(res["pf_tort"], sorted(res["path_tort"])))):
+            out.append(("path-tortuosity", f"PathFeatures tortuosity {res['pf_tort']} differs from the paths' own {sorted(res['path_tort'])}"))
+        if not close(res["length"], case["length"]):
+            out.append(("length", f"tree length {res['length']}, sum of the segment lengths {case['length']}"))
+        return out[:3]
+
+    def nontrivial(self, case, res):
+        return True
+
+
+SUITES = [Features(), Angles(), Closed()]
 TECHNIQUE = ("Lean 4 theorems about the feature models (tree length = Σ edge lengths = Σ branch lengths via C08's edge partition; path length = path distance of its tip; "
              "counts, branch order, terminal degree, Sholl straddle count read off their definitions; partition asymmetry REGENERATED from lmeasure.py; zero-padded "
              "population rows) + differential correspondence (exact on integer-edge lattice trees) + an oracle computing every quantity from its definition in float64")
